@@ -105,8 +105,23 @@ func runC09Default(r *Run) {
 	durs := []time.Duration{thr, thr + 1, thr * 2, ms, 3 * ms, 50 * time.Microsecond, 20 * ms, minW / 2, minW, maxW + 1, time.Nanosecond}
 	burst, drainUntraced, aimAtPeriodEnd := 0, 0, false
 	lastLate := int64(0) // how long after the end of its period the last window was closed
-	for i := 0; i < n && !r.Failed(); i++ {
+	// an outage: hundreds of requests in a row fail (255, 256, 257, 512 ... drops inside one window)
+	stormLeft, extra := 0, 0
+	if t.Chance(6, "drop-storm") {
+		stormLeft = []int{255, 256, 257, 512, 300}[t.Intn(5, "storm-size")]
+		extra = 2 * stormLeft
+		r.Probe("hundreds_of_drops_in_one_window")
+	}
+	stormAt := t.Intn(n, "storm-at")
+	for i := 0; i < n+extra && !r.Failed(); i++ {
 		act := t.Pick([]int{4, 4, 5}, "act") // 0 sleep, 1 acquire, 2 complete
+		storm := stormLeft > 0 && i >= stormAt
+		if storm {
+			act = 2
+			if len(out) == 0 {
+				act = 1
+			}
+		}
 		if !aimAtPeriodEnd && m.cnt > ws && time.Now().UnixNano() < m.next && t.Chance(12, "aim-at-period-end-ready") {
 			aimAtPeriodEnd = true
 		}
@@ -181,6 +196,10 @@ func runC09Default(r *Run) {
 			if drainUntraced > 0 {
 				drainUntraced--
 				o = 1
+			}
+			if storm {
+				stormLeft--
+				o = 2
 			}
 			if age := time.Now().UnixNano() - tk.start; slowFloor > 0 && age < int64(slowFloor) {
 				time.Sleep(slowFloor - time.Duration(age))
@@ -328,6 +347,7 @@ func runC09Windowed(r *Run) {
 	var m winModel
 	m.reset()
 	clock := int64(1e12)
+	slowRTTs := t.Chance(25, "slow-rtts")
 	calls, windows, midDropWindows := 0, 0, 0
 	for i := 0; i < n; i++ {
 		clock += []int64{1e6, 1e8, 1, 3e8, 2e9}[t.Intn(5, "clock-step")]
@@ -336,6 +356,11 @@ func runC09Windowed(r *Run) {
 			r.Fault("F-clock:back")
 		}
 		rtt := []int64{thr, thr + 1, thr / 2, 1e6, 2e6 + int64(t.Intn(1000, "j")), 5e7, 1, 3e5}[t.Intn(8, "rtt")]
+		if slowRTTs {
+			// a slow backend: twice the smallest RTT of a window exceeds the minimum window time, so the period is
+			// governed by the RTTs (up to the maximum window time)
+			rtt = []int64{minW, minW*3/4 + 1, 2 * minW, maxW, minW/2 + 1}[t.Intn(5, "rtt-slow")]
+		}
 		if rtt < 1 {
 			rtt = 1
 		}
